@@ -2,6 +2,8 @@ pub use super::types::{ByteCode, CelStackValue, JmpWhen, RsCallable};
 use crate::{types::CelByteCode, CelValueDyn};
 use std::cell::RefCell;
 use std::fmt;
+use std::sync::atomic::{AtomicBool, Ordering};
+use std::sync::Arc;
 
 use crate::{
     context::construct_type, utils::ScopedCounter, BindContext, CelContext, CelError, CelResult,
@@ -51,6 +53,7 @@ impl<'a, 'b> InterpStack<'a, 'b> {
                             }
                         }
 
+                        self.ctx.run_dependent.store(true, Ordering::Relaxed);
                         Ok(CelValue::from_err(CelError::binding(&name)).into())
                     } else {
                         Ok(val.into())
@@ -103,6 +106,9 @@ pub struct Interpreter<'a> {
     depth: ScopedCounter,
     /// Names of the stored programs that are being evaluated right now, outermost first
     active: RefCell<Vec<String>>,
+    /// Set once the evaluation, here or in a child interpreter, has read something a
+    /// later execution may see differently
+    run_dependent: Arc<AtomicBool>,
 }
 
 /// Marks a stored program as being evaluated until dropped
@@ -123,6 +129,7 @@ impl<'a> Interpreter<'a> {
             bindings: Some(bindings),
             depth: ScopedCounter::new(),
             active: RefCell::new(Vec::new()),
+            run_dependent: Arc::new(AtomicBool::new(false)),
         }
     }
 
@@ -139,6 +146,7 @@ impl<'a> Interpreter<'a> {
             bindings: Some(bindings),
             depth: ScopedCounter::starting_at(parent.depth.count()),
             active: RefCell::new(parent.active.borrow().clone()),
+            run_dependent: parent.run_dependent.clone(),
         }
     }
 
@@ -148,11 +156,19 @@ impl<'a> Interpreter<'a> {
             bindings: None,
             depth: ScopedCounter::new(),
             active: RefCell::new(Vec::new()),
+            run_dependent: Arc::new(AtomicBool::new(false)),
         }
     }
 
     pub fn add_bindings(&mut self, bindings: &'a BindContext) {
         self.bindings = Some(bindings);
+    }
+
+    /// True once the evaluation (macro bodies included) has read a name that is not
+    /// bound. Such a read need not surface in the result: `in`, `==` on maps, `has`
+    /// or `coalesce` absorb the failed value.
+    pub fn run_dependent(&self) -> bool {
+        self.run_dependent.load(Ordering::Relaxed)
     }
 
     pub fn cel_copy(&self) -> Option<CelContext> {
